@@ -87,10 +87,11 @@ func (t *ilvThread) step() {
 }
 
 type ilvCtl struct {
-	req    gen.PID
-	target any
-	mon    bool
-	R, T   *ilvThread
+	req     gen.PID
+	target  any
+	mon     bool
+	R, T    *ilvThread
+	drained chan struct{} // node target: closed when the remover's CleanupNode has been released
 }
 
 // the real target manager with parking points around the calls of the two threads
@@ -169,6 +170,19 @@ var errIlvInit = errors.New("custom7")
 func (f *ilvFailing) Init(args ...any) error {
 	args[0].(*ilvCtl).T.park("init")
 	return errIlvInit
+}
+
+// RouteNodeDown (node target, see ilvnode.go)
+func (w *ilvTM) CleanupNode(name gen.Atom) (map[any][]gen.PID, map[any][]gen.PID) {
+	ctl := w.ctl.Load()
+	if ctl == nil || ctl.target != any(name) {
+		return w.TargetManager.CleanupNode(name)
+	}
+	ctl.T.park("drain")
+	l, m := w.TargetManager.CleanupNode(name)
+	ctl.T.park("drained")
+	close(ctl.drained)
+	return l, m
 }
 
 // all interleavings of nr requester tokens (true) and nt remover tokens (false)
